@@ -1,6 +1,8 @@
 package containers
 
 import (
+	"strings"
+
 	v "github.com/emirpasic/gods/v2/zzvsup"
 )
 
@@ -14,6 +16,7 @@ type VLin struct {
 	Cap  int    // 0 = unbounded; otherwise a bounded FIFO that drops the oldest element when full
 	Full func() bool
 	Inv  func() // representation invariant (assertions)
+	Name string // what String() begins with
 }
 
 const (
@@ -56,7 +59,9 @@ func VLinStep(q VLin, pre []int) {
 			want = pre[1:]
 		}
 	case VLinPeek:
+		v.BeginOp(true, q.C)
 		got, ok := q.Peek()
+		v.EndOp()
 		if n == 0 {
 			v.Assert(!ok, "C05:peek-empty-ok")
 			v.Assert(got == 0, "C05:peek-empty-zero")
@@ -69,10 +74,19 @@ func VLinStep(q VLin, pre []int) {
 		want = []int{}
 	case VLinObservers:
 	case VLinString:
-		_ = q.C.String()
+		v.BeginOp(true, q.C)
+		s := q.C.String()
+		v.EndOp()
+		v.Assert(strings.HasPrefix(s, q.Name), "C15:string-begins-with-container-name")
 	}
 	q.Inv()
+	v.BeginOp(true, q.C)
 	got := q.C.Values()
+	_, _ = q.C.Size(), q.C.Empty()
+	if q.Full != nil {
+		_ = q.Full()
+	}
+	v.EndOp()
 	v.Assert(len(got) == len(want), "C05:values-length")
 	if len(got) == len(want) {
 		for i := 0; i < len(want); i++ {
